@@ -2741,9 +2741,15 @@ class Huber(Functional):
                 else:
                     norm = x.ufuncs.absolute()
 
-                grad = x / functional.gamma
+                if functional.gamma > 0:
+                    grad = x / functional.gamma
+                    index = norm.ufuncs.greater_equal(functional.gamma)
+                else:
+                    # Non-smooth case (L1 norm): sign(x), taking the
+                    # subgradient 0 where `x` vanishes
+                    grad = self.domain.zero()
+                    index = norm.ufuncs.greater(0)
 
-                index = norm.ufuncs.greater_equal(functional.gamma)
                 if isinstance(self.domain, ProductSpace):
                     for xi, gi in zip(x, grad):
                         gi[index] = xi[index] / norm[index]
